@@ -298,6 +298,47 @@ fn gen_string(r: &mut Rng, d: u8) -> Vec<u8> {
     s.into_bytes()
 }
 
+/// A long string free of the delimiter and of LF (so whole 64-byte chunks of the printed line
+/// lie inside one quoted field and hold nothing to mark), optionally with quotes / CR inside.
+fn gen_long_string(r: &mut Rng, d: u8) -> Vec<u8> {
+    let len = match r.below(5) {
+        0 => 60 + r.usize_below(11),
+        1 => 120 + r.usize_below(16),
+        2 => 190 + r.usize_below(11),
+        3 => 250 + r.usize_below(60),
+        _ => 64 + r.usize_below(200),
+    };
+    let fancy = r.chance(1, 2);
+    let mut s = Vec::with_capacity(len + 8);
+    for _ in 0..len {
+        let b = if fancy && r.chance(1, 25) {
+            *r.pick(&[b'"', b'\r'])
+        } else {
+            *r.pick(&[b'x', b'y', b' ', b'1', b'.', b'Q'])
+        };
+        s.push(if b == d { b'z' } else { b });
+    }
+    s
+}
+
+/// An array with one long string as first / middle / last element, the others short; the short
+/// prefix elements vary the alignment of the long field.
+fn gen_long_case(r: &mut Rng, d: u8) -> Vec<Vec<u8>> {
+    let k = r.range(1, 5) as usize;
+    let at = r.usize_below(k);
+    (0..k)
+        .map(|i| {
+            if i == at {
+                gen_long_string(r, d)
+            } else if r.chance(1, 3) {
+                vec![b'p'; r.usize_below(64)]
+            } else {
+                gen_string(r, d)
+            }
+        })
+        .collect()
+}
+
 fn req_line(d: u8, xs: &[Vec<u8>]) -> String {
     let ss = if xs.is_empty() { ".".to_string() } else { xs.iter().map(|x| hex_bytes(x)).collect::<Vec<_>>().join(",") };
     format!("C22 cli {d:02x} {ss}")
@@ -331,6 +372,9 @@ pub fn gen(tier: Tier, r: &mut Rng, emit: &mut dyn FnMut(String)) {
                 _ => r.range(1, 20) as usize,
             };
             cases.push((0..k).map(|_| gen_string(r, d)).collect::<Vec<_>>());
+        }
+        for _ in 0..(n / 3).max(8) {
+            cases.push(gen_long_case(r, d));
         }
         // fixed boundary cases
         cases.push(vec![vec![]]);
